@@ -116,7 +116,7 @@ func genC09(tier int) (map[string][]byte, error) {
 }
 
 func init() {
-	register(&CheckDef{ID: "C09", Level: "proof", Gen: genC09, Timeout: [2]int{300, 900},
+	register(&CheckDef{ID: "C09", Level: "proof", Gen: genC09, Timeout: [2]int{600, 900},
 		Assumptions: []string{
 			"input stream model zzMemReader: delivers data[:L] then io.EOF or an injected error (DESIGN.md section 5)",
 			"bufio.Reader is interpreted from its real SSA (not modelled)",
@@ -127,7 +127,7 @@ func init() {
 }
 
 func init() {
-	register(&CheckDef{ID: "C12", Level: "model_checking", Timeout: [2]int{400, 1500},
+	register(&CheckDef{ID: "C12", Level: "model_checking", Timeout: [2]int{700, 1500},
 		Assumptions: []string{
 			"input stream model zzMemReader (DESIGN.md section 5); bufio.Reader interpreted from its real SSA",
 			"signature predicate zzSpecSig written from TIFF 6.0 section 2 (II*\\0 / MM\\0*)",
@@ -137,7 +137,7 @@ func init() {
 }
 
 func init() {
-	register(&CheckDef{ID: "C01", Level: "model_checking", Timeout: [2]int{300, 3000}, MaxSteps: 3000000, Kinds: []string{"panic", "unwind"},
+	register(&CheckDef{ID: "C01", Level: "model_checking", Timeout: [2]int{600, 3000}, MaxSteps: 3000000, Kinds: []string{"panic", "unwind"},
 		Assumptions: []string{
 			"input stream model zzMemReader: delivers data[:L] (every truncation point) then io.EOF or an injected error",
 			"bufio.Reader, encoding/binary, io.LimitReader interpreted from their real SSA; sync.Pool.Get returns New(); zerolog at the default (panic) level; errors/fmt opaque",
@@ -147,14 +147,14 @@ func init() {
 }
 
 func init() {
-	register(&CheckDef{ID: "C07", Level: "model_checking", Timeout: [2]int{300, 1200},
+	register(&CheckDef{ID: "C07", Level: "model_checking", Timeout: [2]int{600, 1200},
 		Assumptions: []string{"input stream model zzMemReader; bufio interpreted; sync.Pool.Get returns New(); zerolog at the default level; time.Date uninterpreted (equal components give equal instants)"},
 		Bounds: map[string]interface{}{"entry_lemma": "all 2^96 twelve-byte IFD entries x all directory types x all base offsets (no bound)", "paired_decodes": "one-entry IFD0 skeletons: SHORT/LONG/ASCII embedded, ASCII out of line (7 chars), DateTime, and every defined type x count <= 8 for byte-typed embedded values of 8 tag ids"},
 	})
 }
 
 func init() {
-	register(&CheckDef{ID: "C03", Level: "model_checking", Timeout: [2]int{400, 1500},
+	register(&CheckDef{ID: "C03", Level: "model_checking", Timeout: [2]int{700, 1500},
 		Assumptions: []string{
 			"time.Date / time.FixedZone are uninterpreted: equality of instants/zones reduces to equality of the integer components handed over",
 			"float division/conversion are uninterpreted functions of bit patterns (fp=uf): 'float32(n)/float32(d)' means the same operations on the same operands",
@@ -165,31 +165,32 @@ func init() {
 }
 
 func init() {
-	register(&CheckDef{ID: "C10", Level: "model_checking", Timeout: [2]int{300, 1200}, MaxSteps: 30000000,
+	register(&CheckDef{ID: "C10", Level: "model_checking", Timeout: [2]int{600, 1200}, MaxSteps: 30000000,
 		Assumptions: []string{"input stream model zzMemReader; bufio.Reader and io.LimitedReader interpreted from their real SSA; the Exif callback consumes its declared length (premise of the property)"},
 		Bounds: map[string]interface{}{"sequences": "SOI, X, Exif-APP1 (16 payload bytes), Y, XMP-APP1 (12 packet bytes), DQT, 70 data bytes, and the order with XMP first; X = Y from {none, APP0, APP2, COM, DRI, foreign APP1, APPn holding SOI/EOI bytes}; payload bytes arbitrary incl. 0xFF; XMP callback consumption 0..15 bytes", "nonmeta": "one APPn/COM/SOF segment with 40 arbitrary payload bytes"},
 	})
 }
 
 func init() {
-	register(&CheckDef{ID: "C08", Level: "model_checking", Timeout: [2]int{300, 1200},
+	register(&CheckDef{ID: "C08", Level: "model_checking", Timeout: [2]int{600, 1200},
 		Assumptions: []string{
 			"chunked stream model: every Read delivers an arbitrary count 1 <= n <= min(len(p), left) for the first three reads (case split; later reads deliver all that is asked), optionally the last bytes together with io.EOF",
-			"the buffered entry points (Decode, DecodeTiff, DecodeJPEG, DecodeCR3, ScanJPEG, ScanTiffHeader) use only bufio.Peek/Discard; their independence from chunking is bufio's contract and is assumed, not checked",
+			"the buffered entry points are run end to end with bufio interpreted from its SSA over the chunked source (zzC08_containers); bufio itself is not separately verified",
 		},
-		Bounds: map[string]interface{}{"png": "signature + 16 arbitrary bytes (2 chunk headers)", "exif2.Parse": "3-entry IFD0 skeleton (2 SHORT, 1 ASCII[7] out of line), both byte orders"},
+		Bounds: map[string]interface{}{"png": "signature + 16 arbitrary bytes (2 chunk headers)", "exif2.Parse": "3-entry IFD0 skeleton (2 SHORT, 1 ASCII[7] out of line), both byte orders",
+			"Decode": "one 3-entry Exif payload (values arbitrary, both byte orders) in a TIFF file, a JPEG APP1 segment, a PNG eXIf chunk and a CR3 CMT1 box: full reads vs chunked source"},
 	})
 }
 
 func init() {
-	register(&CheckDef{ID: "C11", Level: "model_checking", Timeout: [2]int{300, 1200},
+	register(&CheckDef{ID: "C11", Level: "model_checking", Timeout: [2]int{600, 1200},
 		Assumptions: []string{"input stream model zzMemReader; bufio interpreted; logger at the default level", "one-step lemmas start from an arbitrary chain state (remain values arbitrary non-negative, not assumed consistent)"},
 		Bounds: map[string]interface{}{"lemmas": "chains of depth 2 and 3, every int argument (negative included), 8 operations", "framing": "5 top-level types, well-formed and size-overstating children", "payload": "CMT1..4 with 24 arbitrary payload bytes"},
 	})
 }
 
 func init() {
-	register(&CheckDef{ID: "C13", Level: "model_checking", Timeout: [2]int{400, 1500},
+	register(&CheckDef{ID: "C13", Level: "model_checking", Timeout: [2]int{700, 1500},
 		Assumptions: []string{"input stream model zzMemReader; bufio interpreted (ReadSlice's bytes.IndexByte is a first-match intrinsic)", "values range over printable ASCII without < > & = and without the delimiting quote character (the other quote is allowed)"},
 		Bounds: map[string]interface{}{"packets": "one rdf:Description with 8 properties (tiff:Make/Model/ImageWidth/Orientation, xmp:CreatorTool/Label/Rating, one foreign), attribute form with both quote characters and 3 junk bytes before the root, element form, dc:creator rdf:Seq with 3 items", "value_lengths": "1, 4, 9 bytes (attribute form), 1, 4, 6 (element form), 3/1/1 digits (numbers); long values: 43 lengths between 60 and 1024 around every look-ahead step (120..130, 250..258, 508..514, 762..770, 1019..1024) in 4 serialisations, first and last two bytes arbitrary, the filler concrete",
 			"white_space": "every slot between tokens (before/after attributes, around '=', before '>' and '/>', between tags) holds 0..2 arbitrary characters of {blank, tab, CR, LF}; concrete runs of 28 lengths between 100 and 512 (around the 128-byte steps) between attributes, between elements and between the structural tags",
@@ -198,27 +199,27 @@ func init() {
 }
 
 func init() {
-	register(&CheckDef{ID: "C02", Level: "model_checking", Timeout: [2]int{300, 3000}, MaxSteps: 3000000, Also: []string{"C01"},
-		FnPattern: `^zzC0[12]_(jpeg_hole|jpeg_seq|jpeg_filler|jpeg_trunc|tiff_free|png_free|png_sig|bmff_infe|bmff_iloc|bmff_top|exif_next|exif_subifds|exif_ifdoff)$`,
+	register(&CheckDef{ID: "C02", Level: "model_checking", Timeout: [2]int{600, 3000}, MaxSteps: 3000000, Also: []string{"C01"},
+		FnPattern: `^zzC0[12]_(jpeg_hole|jpeg_seq|jpeg_filler|jpeg_trunc|tiff_free|png_free|png_sig|bmff_infe|bmff_infe2|bmff_iloc|bmff_top|bmff_sizes|bmff_pay|bmff_mdat|bmff_ctbo|exif_next|exif_subifds|exif_ifdoff|exif_fulldir|xmp_free)$`,
 		Kinds:     []string{"unwind", "assert"}, AssertOnly: "bytes requested",
 		Assumptions: []string{
 			"termination is decided as an unwinding assertion: a path that exceeds the step budget (3000000 SSA instructions for streams of at most ~150 bytes) yields a model that is replayed natively under a 20 s watchdog; only a native hang is a violation",
 			"bytes requested from the underlying reader are counted by the stream model (bufio's fills are real calls on it): requested <= 4*len+64KiB is asserted at every return",
 			"CPU time per byte is represented by the step budget, not by wall-clock",
 		},
-		Bounds: map[string]interface{}{"harnesses": "the C01 entry-point harnesses for jpeg (hole, sequences, filler, truncation), tiff, png, isobmff (infe, iloc, top-level boxes) and exif2 (next-IFD pointer, SubIFDs, first-IFD offset)"},
+		Bounds: map[string]interface{}{"harnesses": "the C01 entry-point harnesses for jpeg (hole, sequences, filler, truncation), tiff, png, isobmff (infe entries, size classes of every box of the tree, leaf payloads, the iinf+iloc+mdat route, CTBO) and exif2 (next-IFD pointer, SubIFDs, first-IFD offset, full directories), and xmp.ParseXmp on a root element followed by 24 arbitrary bytes"},
 	})
 }
 
 func init() {
-	register(&CheckDef{ID: "C14", Level: "model_checking", Timeout: [2]int{300, 1500}, Kinds: []string{"alloc", "assert"}, AssertOnly: "bytes allocated",
+	register(&CheckDef{ID: "C14", Level: "model_checking", Timeout: [2]int{600, 1500}, Kinds: []string{"alloc", "assert"}, AssertOnly: "bytes allocated",
 		Assumptions: []string{
 			"ghost allocation counter: every heap Alloc, make (capacity), append growth (2*len+8 elements), []byte<->string conversion and pool New adds its size; stubbed fmt/errors calls add 256 bytes each; zerolog at the default level allocates nothing",
 			"a make() whose byte size can exceed 8 MiB under the path condition is reported as an input-controlled allocation; its replay measures runtime.MemStats.TotalAlloc",
 		},
 		Bounds: map[string]interface{}{"harnesses": "CR3 preview route with an arbitrary 24-byte PRVW header; IFD0 entries (4 id classes) with counts up to 2^32-1; HEIF iloc with arbitrary version/count/entries"},
 	})
-	register(&CheckDef{ID: "C15", Level: "model_checking", Timeout: [2]int{300, 1500}, Kinds: []string{"panic", "stdout", "assert"},
+	register(&CheckDef{ID: "C15", Level: "model_checking", Timeout: [2]int{600, 1500}, Kinds: []string{"panic", "stdout", "assert"},
 		Assumptions: []string{
 			"zerolog model (DESIGN.md section 5): a logger is its level; an event is enabled iff event level >= logger level and the logger is not disabled; on an enabled event Object/Array/Stringer/Err call back into the real MarshalZerologObject/Array, String and Error methods of the argument; Send/Msg write to the configured writer",
 			"fmt.Print* is a write to fd 1; under the default configuration any such write is a finding",
@@ -228,22 +229,26 @@ func init() {
 }
 
 func init() {
-	register(&CheckDef{ID: "C19", Level: "model_checking", Timeout: [2]int{400, 1500}, MaxSteps: 30000000, SolverMs: 120000, LooseSamples: true,
+	register(&CheckDef{ID: "C19", Level: "model_checking", Timeout: [2]int{700, 1500}, MaxSteps: 30000000, SolverMs: 120000, LooseSamples: true,
 		Assumptions: []string{
 			"floats are bit patterns with uninterpreted arithmetic (fp=uf): value obligations are 'the same operations on the same pixel'",
 			"sync.Pool.Get returns New(); image and image/color accessors interpreted from their real SSA",
-			"not decided here: the median/threshold relation (uninterpreted float comparisons), 2-D DCT wiring, agreement of primary and alternative pipelines within rounding (see DESIGN.md C19)",
+			"float comparisons are exact on the bit patterns (monotone key, the two zeros equal, NaN inputs excluded); float arithmetic stays uninterpreted",
+			"2-D wiring: DCT2DHash64/256 (float64 and the portable float32 branch) against the real 1-D kernel applied to rows and then to the low-frequency columns of the same 4096 / 65536 symbolic inputs: identity of hash-consed terms (no solver query); a failure is replayed on a fixed patterned image",
+			"threshold: MedianOfPixels on 2..5 arbitrary values: odd count = value of rank n/2; even count = a/2 + b/2 with b the upper median and a another value <= b (the code's 'at or just below the median'); the 64- and 256-element variants share quickSelectMedian but are not run at their own size",
+			"not decided here: the bit assembly inside NewPHash*/NewAHash on whole images and the agreement of primary and alternative pipelines within rounding (see DESIGN.md C19)",
 		},
-		Bounds: map[string]interface{}{"guard": "4 constructors x sizes from {0,1,n-1,n,n+1,n/2,2n}^2 minus (n,n) x origin x in {-3,0,5}; nil image", "gray": "RGBA and Gray images of side 2 and 3, origins {0,1,-2}x{0,3}, arbitrary pixel bytes", "distance": "all 64/256-bit hash pairs"},
+		Bounds: map[string]interface{}{"guard": "4 constructors x sizes from {0,1,n-1,n,n+1,n/2,2n}^2 minus (n,n) x origin x in {-3,0,5}; nil image", "gray": "RGBA and Gray images of side 2 and 3, origins {0,1,-2}x{0,3}, arbitrary pixel bytes", "distance": "all 64/256-bit hash pairs",
+			"wiring": "64x64 -> 8x8 and 256x256 -> 16x16, float64 and float32", "median": "n = 2, 3, 4, 5 (n = 6 does not finish)"},
 	})
 }
 
 func init() {
-	register(&CheckDef{ID: "C06", Level: "model_checking", Timeout: [2]int{300, 1200},
+	register(&CheckDef{ID: "C06", Level: "model_checking", Timeout: [2]int{600, 1200},
 		Assumptions: []string{"input stream model zzMemReader; bufio interpreted; sync.Pool.Get returns New(); logger at the default level"},
 		Bounds: map[string]interface{}{"payload": "TIFF header + IFD0 {ImageWidth SHORT, Orientation SHORT, Software ASCII[6] out of line}, all values symbolic, II and MM", "containers": "bare TIFF; HEIF-branded file with 0..3 arbitrary bytes before the payload (Decode, DecodeHeif); JPEG (APP0, APP1, DQT, 70 data bytes) through DecodeJPEG and Decode; PNG (one foreign chunk, eXIf); CR3 (ftyp, moov/uuid/CMT1, free)", "outside": "HEIF item-location route, CMT2-4, other surroundings"},
 	})
-	register(&CheckDef{ID: "C04", Level: "model_checking", Timeout: [2]int{400, 1500}, MaxSteps: 30000000,
+	register(&CheckDef{ID: "C04", Level: "model_checking", Timeout: [2]int{700, 1500}, MaxSteps: 30000000,
 		Assumptions: []string{
 			"history = pool contents: after zzPoolHavoc every scalar and every byte of an object returned by sync.Pool.Get is a fresh solver variable (a pooled bufio.Reader keeps valid indices, only its buffer bytes are arbitrary); Put is a no-op",
 			"a violation found here cannot be replayed without a primer call that leaves the solved pool contents; it is reported only if the native run on pristine pools already differs, otherwise as inconclusive candidate",
